@@ -11,10 +11,12 @@ MANIFEST = {
           'store; by the C04 relation); C13_snapshot_inv (every reachable snapshot satisfies epoch_inv). '
           'The model is tied to the code by the shared broker histories (recover / forcebump / restore operations included) run on the real MetaStore and the '
           'extracted model with the store text and all views compared after every operation; the C13 monitor checks on the real views after every recover e that '
-          'every served epoch is >= e and > the previous global epoch.',
+          'every served epoch is >= e and > the previous global epoch. The service composition is executed too: `svcrecover m` restarts a real MemBrokerService from the '
+          'current store as its snapshot (MemBrokerService::new restores it), runs hook H4 recover_epoch_with_max(m) (the production statement '
+          'self.storage.recover_epoch(max_epoch + 1) without the TCP fetch) and reads the store back; the model runs recover_epoch (m+2); the monitor demands every '
+          'served epoch and the global epoch to be > m. The production body is pinned textually.',
   'note': 'Trusted: Coq kernel (closed under the global context), extraction + OCaml driver, harness/broker, hook H1. '
-          'PARTIAL (store level only): the service/storage composition (max_epoch + 1, + 1) is read from service.rs:680 and storage.rs:334 and restated as the '
-          'Coq definition recover_service, it is not executed by this check (the harness calls MetaStore::recover_epoch directly); fetch_max_epoch over TCP, '
+          'PARTIAL: fetch_max_epoch over TCP, '
           'unreachable proxies holding larger epochs, proxies registered after the snapshot (not polled) and u64 overflow of max_epoch + 2 are outside the model - '
           'the hypothesis "m is the largest epoch held by any proxy" is exactly what those would break. Re-convergence of the proxies (C13_reconverge of the design) '
           'belongs to the control-plane model and is not part of these theorems.',
@@ -22,7 +24,31 @@ MANIFEST = {
 }
 
 
-def run(chk): bc.standard_run(chk, 'C13')
+def pins():
+    import re
+    svc = open('/repo/src/broker/service.rs').read()
+    sto = open('/repo/src/broker/storage.rs').read()
+    m = re.search(r'pub async fn recover_epoch\(&self\) -> Result<Vec<String>, MetaStoreError> \{(.*?)\n    \}', svc, re.S)
+    body = m.group(1) if m else ''
+    probs = []
+    if 'fetch_max_epoch(proxy_addresses)' not in body or 'self.storage.recover_epoch(max_epoch + 1).await?' not in body:
+        probs.append('service.rs recover_epoch no longer reads: fetch_max_epoch(..); self.storage.recover_epoch(max_epoch + 1)')
+    if 'self.store.write().recover_epoch(exsting_largest_epoch + 1);' not in sto:
+        probs.append('storage.rs MemoryStorage::recover_epoch no longer calls store.recover_epoch(exsting_largest_epoch + 1)')
+    return probs
+
+
+def scenarios():
+    base = 'H 0 ; ' + ' ; '.join('addproxy %d %d -' % (i, 10 + (i % 3)) for i in range(1, 9))
+    return [base + ' ; addcluster 1 4 1 ? ; addnodes 1 4 ? ; migrate 1 ; svcrecover 100 ; commitnth 1 0 1 ; svcrecover 3 ; replace 1 0 ? ; svcrecover 102 ; svcrecover 0',
+            base + ' ; addcluster 1 8 1 ? ; forcebump 77 ; restore 9 ; svcrecover 77 ; svcrecover 78 ; rmproxy 8 ; addproxy 8 10 -']
+
+
+def run(chk):
+    st = bc.standard_run(chk, 'C13', extra_histories=scenarios())
+    if st is not None:
+        for p in pins():
+            chk.violation({'kind': 'correspondence', 'correspondence': 'production recover_epoch body vs hook H4 / Coq recover_service', 'detail': p}, no_input=True)
 
 
 def replay(data): return bc.replay('C13', data)
